@@ -505,7 +505,7 @@ class SortedIntSet(DocIdSet):
     def discard(self, i):
         data = self.data
         pos = bisect_left(data, i)
-        if data[pos] == i:
+        if pos < len(data) and data[pos] == i:
             data.pop(pos)
 
     def clear(self):
